@@ -80,15 +80,21 @@ def build(spec, initialize=True, constrain=True, catch=True) -> Built:
         b.node[n['id']] = obj
         b._name[obj] = n['id']
     used = set()
-    for u, v in spec['edges']:
-        dsg.add_edge(b.node[u], b.node[v])
-        used.update((u, v))
+    late = bool(spec.get('edges_after_choices'))   # same graph, other insertion order (in-edge order of option nodes)
+    if not late:
+        for u, v in spec['edges']:
+            dsg.add_edge(b.node[u], b.node[v])
+            used.update((u, v))
     for c in spec['sel']:
         cn = dsg.add_selection_choice(c['id'], b.node[c['origin']], [b.node[o] for o in c['options']])
         b.sel[c['key']] = cn
         b._name[cn] = 'S:' + c['key']
         used.add(c['origin'])
         used.update(c['options'])
+    if late:
+        for u, v in spec['edges']:
+            dsg.add_edge(b.node[u], b.node[v])
+            used.update((u, v))
     for k in spec['conn']:
         def side(entries):
             out = []
